@@ -115,6 +115,10 @@ def setup(ctx):
     ctx.require('contract._count_atoms', 1, 'the _count_atoms postcondition must have been evaluated')
     if not ctx.replay:
         ctx.require('cases.private', 1, 'private-table share of the workload')
+        for r in ROUTES[1:]:
+            ctx.require('route.' + r, 1, 'every documented parser route must be taken by valid strings')
+            ctx.require('malformed.route.' + r, 1, 'every documented parser route must be taken by malformed strings')
+        ctx.require('empty.blank-string', 1, 'blank strings (white space only) must be parsed')
         for cls in ('unknown-symbol', 'undefined-isotope', 'undefined-charge', 'bad-isotope-tag', 'bad-ion-tag',
                     'bad-count', 'unbalanced-bracket', 'bad-density'):
             ctx.require('malformed.' + cls, MALFORMED_MIN, 'every malformation class must be exercised')
@@ -131,6 +135,30 @@ def finish(ctx):
         ctx.count('contract._count_atoms.unrecognised_call', _s['contract']['unrecognised'])
         waive_unjudged(ctx, 'contract._count_atoms', _s['contract']['evals'], _s['contract']['unrecognised'],
                        'the private formulas._count_atoms')
+
+
+# ---------------------------------------------------------------- routes
+ROUTES = ('formula', 'parse_formula', 'grammar', 'grammar-new')
+
+
+def _parse(text, T, route='formula'):
+    """The string through one of the documented routes: periodictable.formula (the main one), formulas.parse_formula,
+    or a parser object from formulas.formula_grammar(table=T) (guide/customizing.rst) - kept for the whole run or
+    built for this one string.  All of them must accept and reject the same strings and give the same formula."""
+    import periodictable as pt
+    from periodictable import formulas
+    if route == 'formula':
+        return pt.formula(text, table=T)
+    if route == 'parse_formula':
+        return formulas.parse_formula(text, table=T)
+    if route == 'grammar':
+        parsers = _s.setdefault('parsers', {})
+        if id(T) not in parsers:
+            parsers[id(T)] = formulas.formula_grammar(table=T)
+        return parsers[id(T)].parseString(text)[0]
+    if route == 'grammar-new':
+        return formulas.formula_grammar(table=T).parseString(text)[0]
+    raise ValueError(route)
 
 
 # ---------------------------------------------------------------- oracles
@@ -205,20 +233,23 @@ def check_string(ctx, case):
     ctx.count('cases.' + tname)
     text = case['text']
     denot = _denot_from_case(case)
+    route = case.get('route', 'formula')
+    ctx.count('route.' + route)
+    via = '' if route == 'formula' else ' [route %s]' % route
     try:
-        f = pt.formula(text, table=T)
+        f = _parse(text, T, route)
     except Exception as exc:
-        detail = dict(exc_type=type(exc).__name__, flags=case.get('flags', []))
+        detail = dict(exc_type=type(exc).__name__, flags=case.get('flags', []), route=route)
         if case.get('safe_text'):
             detail['sibling_ok'] = _sibling_ok(ctx, case, denot, T, tname)
-        ctx.violation('formula(%r) raised %s: %s' % (text, type(exc).__name__, str(exc)[:200]), **detail)
+        ctx.violation('formula(%r)%s raised %s: %s' % (text, via, type(exc).__name__, str(exc)[:200]), **detail)
         return
     problems = _compare(ctx, f, denot, case, T, tname, case.get('depth', 0))
     if problems:
-        detail = dict(flags=case.get('flags', []), problems=problems[:4])
+        detail = dict(flags=case.get('flags', []), problems=problems[:4], route=route)
         if case.get('safe_text'):
             detail['sibling_ok'] = _sibling_ok(ctx, case, denot, T, tname)
-        ctx.violation('formula(%r): %s' % (text, problems[0]), **detail)
+        ctx.violation('formula(%r)%s: %s' % (text, via, problems[0]), **detail)
     ctx.distinct_case(('pos', case.get('shape') or text))
     # the same string again, in the other table and once more in this one: the result must not
     # depend on what was parsed before (one grammar is cached per table)
@@ -255,14 +286,17 @@ def check_malformed(ctx, case):
     T = _s['tables'][case.get('table', 'public')]
     ctx.count('malformed.' + case['class'].split(':')[0])
     ctx.evaluated(what='malformed')
+    route = case.get('route', 'formula')
+    ctx.count('malformed.route.' + route)
     try:
-        f = pt.formula(case['text'], table=T)
+        f = _parse(case['text'], T, route)
     except Exception:
         ctx.distinct_case(('neg', case['class'], case.get('shape')))
         return
-    ctx.violation('malformed string %r (%s of %r) was accepted as %r'
-                  % (case['text'], case['class'], case['from'], f.structure if len(repr(f.structure)) < 200 else '...'),
-                  malformation=case['class'])
+    ctx.violation('malformed string %r (%s of %r) was accepted as %r%s'
+                  % (case['text'], case['class'], case['from'], f.structure if len(repr(f.structure)) < 200 else '...',
+                     '' if route == 'formula' else ' [route %s]' % route),
+                  malformation=case['class'], route=route)
 
 
 def check_element_sweep(ctx, case):
@@ -311,16 +345,21 @@ def check_empty(ctx, case):
     ctx.count('cases.' + tname)
     water = pt.formula(case['other'], table=T)
     seen = []
+    blank = case.get('blank', '')   # '', or white space only: the grammar's 'nothing' as well
+    if blank:
+        ctx.count('empty.blank-string')
     for step in case['steps']:
         ctx.evaluated(what='empty')
         if step == 'plain':
-            f = pt.formula('', table=T)
+            f = pt.formula(blank, table=T)
+        elif step == 'parse':
+            f = _parse(blank, T, case.get('route', 'parse_formula'))
         elif step == 'density':
-            f = pt.formula('', density=case['density'], table=T)
+            f = pt.formula(blank, density=case['density'], table=T)
         elif step == 'name':
-            f = pt.formula('', name='air', table=T)
+            f = pt.formula(blank, name='air', table=T)
         elif step == 'extend':
-            f = pt.formula('', table=T)
+            f = pt.formula(blank, table=T)
             before = (f.atoms, f.density)
             if before != ({}, None):
                 ctx.violation("formula('') before being extended: atoms %r density %r" % before, step=step)
@@ -330,7 +369,7 @@ def check_empty(ctx, case):
         want_density = case['density'] if step == 'density' else None
         want_name = 'air' if step == 'name' else None
         if f.atoms != {} or f.charge != 0 or f.density != want_density or f.name != want_name or f.structure != ():
-            ctx.violation("formula('') [%s] after %r: atoms %r charge %r density %r name %r, expected nothing, 0, %r, %r"
+            ctx.violation("formula(" + repr(blank) + ") [%s] after %r: atoms %r charge %r density %r name %r, expected nothing, 0, %r, %r"
                           % (step, case['steps'][:case['steps'].index(step)], f.atoms, f.charge, f.density, f.name,
                              want_density, want_name), step=step)
         if any(f is g for g in seen):
@@ -426,18 +465,25 @@ def generate(ctx):
             case['safe_text'] = _safe_text(node)
         if rng.random() < 0.15:
             case['again'] = True
+        if rng.random() < 0.25:
+            # a less-travelled documented route: parse_formula, or a parser object from formula_grammar(table=T)
+            case['route'] = rng.choice(ROUTES[1:])
         if case.get('safe_text') is None and node.flags:
             continue
         yield 'string', case
-        if j % 150 == 7:
-            steps = [rng.choice(['plain', 'density', 'name', 'extend']) for _ in range(rng.randint(3, 7))] + ['plain']
+        if j % 40 == 7:
+            steps = [rng.choice(['plain', 'density', 'name', 'extend', 'parse']) for _ in range(rng.randint(3, 7))] \
+                + ['plain', 'parse']
             yield 'empty', {'table': tname, 'steps': steps, 'density': round(rng.uniform(0.001, 20), 4),
-                            'other': rng.choice(['H2O', 'N2', 'CaCO3', 'Fe{2+}'])}
+                            'other': rng.choice(['H2O', 'N2', 'CaCO3', 'Fe{2+}']),
+                            'blank': rng.choice(['', '', ' ', '  ', '\t', ' \n']), 'route': rng.choice(ROUTES[1:])}
         # malformed siblings of the untagged text (unflagged strings only: the base must be valid)
         if not node.flags and rng.random() < 0.6:
             for cls, ms in malformations(bare, rng, tables[tname]):
-                yield 'malformed', {'text': ms, 'class': cls, 'from': bare, 'table': tname,
-                                    'shape': shape_of(ms)}
+                mc = {'text': ms, 'class': cls, 'from': bare, 'table': tname, 'shape': shape_of(ms)}
+                if rng.random() < 0.3:
+                    mc['route'] = rng.choice(ROUTES[1:])
+                yield 'malformed', mc
 
 
 def _safe_text(node):
